@@ -45,3 +45,4 @@ replace github.com/blevesearch/bleve/v2 => /repo
 
 replace github.com/blevesearch/bleve_index_api => ./.build/deps/bleve_index_api
 replace go.etcd.io/bbolt => ./.build/deps/bbolt
+replace github.com/blevesearch/zapx/v17 => ./.build/deps/zapx17
